@@ -1,5 +1,6 @@
 import CuriesVerif.Check
 import CuriesVerif.Properties.C05
+import CuriesVerif.Properties.C09
 import CuriesVerif.Properties.C04
 import CuriesVerif.Lemmas.Refine
 
@@ -203,85 +204,12 @@ theorem checker_init_sound (idx : Nat) (what : String) (recs : List Record) (d :
     rw [(C04_which recs d).1 hU]
     simp [hu, Val.errFamily, Err.isLibraryValueError]
 
-theorem filter_eq_singleton {α} (p : α → Bool) (l : List α) (j : Nat) (hj : j < l.length)
-    (hothers : ∀ i (hi : i < l.length), i ≠ j → p l[i] = false) (hjt : p l[j] = true) :
-    l.filter p = [l[j]] := by
-  induction l generalizing j with
-  | nil => simp at hj
-  | cons a as ih =>
-    cases j with
-    | zero =>
-      have hall : ∀ x ∈ as, p x = false := by
-        intro x hx
-        obtain ⟨i, hi, rfl⟩ := List.mem_iff_getElem.mp hx
-        have := hothers (i + 1) (by simp; omega) (by omega)
-        simpa using this
-      have ha : p a = true := by simpa using hjt
-      rw [List.filter_cons, if_pos ha]
-      have : as.filter p = [] := List.filter_eq_nil_iff.mpr (fun x hx => by simp [hall x hx])
-      simp [this]
-    | succ j' =>
-      have ha : p a = false := by
-        have := hothers 0 (by simp) (by omega)
-        simpa using this
-      rw [List.filter_cons, if_neg (by simp [ha])]
-      simpa using ih j' (by simpa using hj) (fun i hi hne => by
-        have := hothers (i + 1) (by simp; omega) (by omega)
-        simpa using this) (by simpa using hjt)
-
-theorem map_replace_eq_set {α} [DecidableEq α] (l : List α) (hn : l.Nodup) (j : Nat) (hj : j < l.length) (m : α) :
-    l.map (fun y => if y = l[j] then m else y) = l.set j m := by
-  induction l generalizing j with
-  | nil => simp at hj
-  | cons a as ih =>
-    have hp := List.nodup_cons.mp hn
-    cases j with
-    | zero =>
-      simp only [List.getElem_cons_zero, List.map_cons, if_true, List.set_cons_zero]
-      congr 1
-      have : ∀ y ∈ as, (if y = a then m else y) = y := fun y hy => by
-        rw [if_neg]; rintro rfl; exact hp.1 hy
-      conv => rhs; rw [← List.map_id as]
-      exact List.map_congr_left (fun y hy => by simpa using this y hy)
-    | succ j' =>
-      have hj' : j' < as.length := by simpa using hj
-      simp only [List.getElem_cons_succ, List.map_cons, List.set_cons_succ]
-      have hne : a ≠ as[j'] := fun e => hp.1 (e ▸ List.getElem_mem hj')
-      rw [if_neg hne, ih hp.2 j' hj']
-
-theorem Unique.nodup {recs : List Record} (h : Unique recs) : recs.Nodup := by
-  unfold Unique at h
-  exact List.Pairwise.imp (fun {a b} hab e => hab.1 a.pfx (by simp [Record.allP]) (by rw [e]; simp [Record.allP])) h
-
 /-- what the checker expects the records to be after an accepted `add_record` is what the model's
-`add_record` leaves (on every well-formed converter) -/
+`add_record` leaves (on every well-formed converter): `C05_afterAdd` -/
 theorem checker_add_expect_sound (fold : Str → Str) {c c' : Conv} (h : WF c) (r : Record) (cs merge : Bool)
     (hok : c.addRecord fold r cs merge = .ok c') :
-    expectedAfterAdd fold c.records r cs merge = some c'.records := by
-  rcases addRecord_spec fold h r cs merge with ⟨hnone, e⟩ | ⟨j, hj, hothers, hjt, e⟩ | ⟨_, e⟩
-  · have hf : c.records.filter (fun x => matchesRec fold cs r x) = [] :=
-      List.filter_eq_nil_iff.mpr (fun x hx => by simp [hnone x hx])
-    rw [e] at hok
-    injection hok with hok
-    subst hok
-    unfold expectedAfterAdd
-    rw [hf]
-    rfl
-  · have hf := filter_eq_singleton (fun x => matchesRec fold cs r x) c.records j hj hothers hjt
-    rw [e] at hok
-    cases merge with
-    | false => simp at hok
-    | true =>
-      simp only [if_true] at hok
-      injection hok with hok
-      subst hok
-      unfold expectedAfterAdd
-      rw [hf]
-      simp only [if_true]
-      show some (List.map _ c.records) = some (c.records.set j _)
-      rw [map_replace_eq_set c.records h.1.nodup j hj]
-  · rw [e] at hok
-    cases hok
+    expectedAfterAdd fold c.records r cs merge = some c'.records :=
+  C05_afterAdd fold h r cs merge hok
 
 /-- a rejected call leaves the records as they were: what the checker expects then is the list it had observed -/
 theorem checker_add_reject_expect (fold : Str → Str) (o : SlotObs) (recs : List Record) (ho : o.recs = some recs)
@@ -290,3 +218,15 @@ theorem checker_add_reject_expect (fold : Str → Str) (o : SlotObs) (recs : Lis
   unfold expectAfterAdd
   rw [ho]
   simp [hu]
+
+/-- what the checker expects of `chain` — success or failure, and the records of the result — is what the model's
+`chain` delivers on well-formed inputs (`C09_chain_refines`) -/
+theorem checker_chain_expect_sound (fold : Str → Str) (convs : List Conv) (cs : Bool) (hne : convs ≠ [])
+    (hw : ∀ c ∈ convs, WF c) :
+    Spec.chainRecords fold cs (convs.map (·.records)) = (Conv.chain fold convs cs).toOption.map (·.records) :=
+  (C09_chain_refines fold convs cs hne hw).symm
+
+/-- what the checker expects of `get_subconverter` is, up to the constructor's sorting, what the model holds -/
+theorem checker_sub_expect_sound {c c' : Conv} (P : List Str) (hc' : c.getSubconverter P = .ok c') :
+    (Spec.subRecords c.records P).Perm c'.records :=
+  (C09_sub_refines P hc').symm
